@@ -9,7 +9,8 @@ void vp_mechconf(void)
 __CPROVER_requires(OUT(inputs) == 0)
 /* no configuration value lets an exception escape (the C_* barrier would turn it into exit()) */
 __CPROVER_ensures(OUT(escaped) == 0)
-/* the configured list: positive list = exactly the valid names given; negative list = the table without them; unknown, empty and blank items are ignored */
+/* the configured list: positive list = exactly the valid names given; negative list = the table without them; unknown, empty and blank items are ignored
+ * (values containing a name with blanks around it are exempt: trimming them or not are both acceptable readings) */
 __CPROVER_ensures(OUT(wrong_size) == 0)
 __CPROVER_ensures(OUT(missing) == 0 && OUT(unexpected) == 0)
 __CPROVER_assigns(__CPROVER_object_whole(vp_out));
